@@ -1,7 +1,7 @@
 import DdsModel.FormatTables
 import DdsModel.Drv.Util
 import DdsModel.Drv.C02
-namespace Dds.Drv
+namespace Dds.Drv.C19
 open Dds Dds.C19
 
 namespace C19Drv
@@ -187,4 +187,8 @@ def runC19 (line : String) : String :=
   | "G" :: rest => C19Drv.runCanary rest
   | _ => "bad-case"
 
+end Dds.Drv.C19
+
+namespace Dds.Drv
+def runC19 : String → String := C19.runC19
 end Dds.Drv
